@@ -18,7 +18,7 @@ MANIFEST = dict(
     note="Modelled, not verified: Python isinstance dispatch order in the child loop.",
     technique="Lean 4 proof by mutual structural induction over the tag tree + differential correspondence check",
 )
-PROP_FILES = ["HtmlVerif/Props/C07.lean"]
+PROP_FILES = ["HtmlVerif/Props/C07.lean", "HtmlVerif/Props/SrcRender.lean"]
 EOLS = ["\n", "", "<!>"]
 
 
@@ -83,6 +83,7 @@ def run(tier: str) -> int:
     impl = core.impl_many(lines)
     for l, im, nt in zip(lines, impl, nontriv):
         ck.add(l, im, nontrivial=nt, tag=l.split(" ", 1)[0])
+    ck.add_src(['Tag_get_html_string', 'TagList_get_html_string'], quick=250, thorough=2500)
     ck.correspond(holds=False)
     # executable statement on the implementation: impl(t) == impl(stripMeta t), stripMeta computed by the Lean definition
     if ck.driver is not None:
